@@ -266,7 +266,31 @@ func r106(c *Ctx, r *R) {
 					}
 				}
 				if gCall(gd, true, ModPath+".Consensus).IsTrustedPeer") {
-					trusted = true
+					// ... of the very peer that is appended (not of self or
+					// of some other value)
+					tc, _ := originCall(gd.Cond)
+					app := callArgs(ci.Common())
+					if tc != nil && len(app) >= 2 {
+						targ := tc.Common().Args[len(tc.Common().Args)-1]
+						same := false
+						// appended element(s): a varargs slice holding the element
+						for _, lf := range valueLeaves(app[1], b) {
+							if sl, ok := lf.Val.(*ssa.Slice); ok {
+								if al, ok := sl.X.(*ssa.Alloc); ok {
+									for _, ref := range *al.Referrers() {
+										if ia, ok := ref.(*ssa.IndexAddr); ok {
+											for _, r2 := range *ia.Referrers() {
+												if st, ok := r2.(*ssa.Store); ok && strip(st.Val) == strip(targ) {
+													same = true
+												}
+											}
+										}
+									}
+								}
+							}
+						}
+						trusted = same
+					}
 				}
 			}
 			r.Check(notSelf && notExcl && trusted, "getTrustedPeers:filter", ci.Pos(), "others = trusted members except self and the excluded (failed) peer",
